@@ -42,12 +42,17 @@ def _channel_factor(repo, col):
     fi = repo.method("Module", "_channel_currents")
     ex = Expander(repo, fi)
     found = 0
+    # the two accumulators are the pair returned next to the states (whatever the locals are called)
+    acc_names = set()
+    for r_ in ast.walk(fi.node):
+        if isinstance(r_, ast.Return) and isinstance(r_.value, ast.Tuple) and len(r_.value.elts) == 2 and isinstance(r_.value.elts[1], ast.Tuple):
+            acc_names |= {x.id for x in r_.value.elts[1].elts if isinstance(x, ast.Name)}
     for s in ex.calls:
         if isinstance(s.func, ast.Attribute) and s.func.attr in ("add", "set") and isinstance(s.func.value, ast.Subscript):
             base = s.func.value.value
             if isinstance(base, ast.Attribute) and base.attr == "at":
                 tgt = unparse(base.value)
-                if tgt in ("voltage_terms", "constant_terms"):
+                if tgt in acc_names:
                     v = ex.term(s.args[0])
                     consts = [x.name for x in v.walk() if x.op == "const" and isinstance(x.name, (int, float))
                               and x.name not in (0, 1, 0.0, 1.0, -1)]
